@@ -48,14 +48,23 @@ def run(tier, wd):
         if c["kind"] == "args":
             return {"kind": "args", "decls": [n.replace("~", "\u0142") for n in c["decls"]]}
         return {"kind": c["kind"], "decls": c["decls"]}
-    results = core.run_harness(binpath, "decl", [concrete(c) for c in cases], wd)
+    # Cli.Version declares an option too: every option sequence again with one of its declarations made through Version (the name
+    # table of Decl.tla does not care through which entry point a declaration arrives)
+    vcases = []
+    for c in cases:
+        if c["kind"] == "opts" and len(c["decls"]) <= 3:
+            for k in range(len(c["decls"])):
+                vcases.append(dict(c, version=k))
+    cases = cases + vcases
+    rep.cov["sequences_with_a_version_declaration"] = len(vcases)
+    results = core.run_harness(binpath, "decl", [dict(concrete(c), **({"version": c["version"]} if "version" in c else {})) for c in cases], wd)
     rnd = random.Random(core.seed())
     nontriv = 0
     for c, r in zip(cases, results):
         rep.cov["evaluations"] += 1
         why = judge(c, r)
         if why:
-            rep.violation("%s %s: %s" % (c["kind"], c["decls"], why), {"engine": "decl", "case": c})
+            rep.violation("%s %s%s: %s" % (c["kind"], c["decls"], " (declaration %d through Version)" % c["version"] if "version" in c else "", why), {"engine": "decl", "case": c})
         if "panic" in c["outcome"]:
             nontriv += 1
         if len(rep.cov["samples"]) < 5 and len(c["decls"]) == 3 and "panic" in c["outcome"] and "ok" in c["outcome"][1:] and rnd.random() < 0.01:
@@ -77,7 +86,7 @@ def replay(path, wd):
         c = json.load(f)["replay"]["case"]
     binpath = core.build_harness()
     decls = [n.replace("~", "\u0142") for n in c["decls"]] if c["kind"] == "args" else c["decls"]
-    r = core.run_harness(binpath, "decl", [{"kind": c["kind"], "decls": decls}], wd, shards=1)[0]
+    r = core.run_harness(binpath, "decl", [dict({"kind": c["kind"], "decls": decls}, **({"version": c["version"]} if "version" in c else {}))], wd, shards=1)[0]
     why = judge(c, r)
     print("replay: %s %s -> %s ; %s" % (c["kind"], c["decls"], json.dumps(r), why or "agrees with the specification"))
     return 1 if why else 0
